@@ -258,23 +258,29 @@ def _cnot_on_two_bosonic_qubits(modes):
     return instructions
 
 
-def _get_condition_function(qubit_index, measurement_value):
+def _get_condition_function(measurement_index, measurement_value, negate=False):
     """Returns a condition for conditional operations based on measurement outcomes.
 
-    This function converts the qubit index to the corresponding dual-rail mode
-    indices and checks the measurement outcomes of those modes to determine the
-    qubit measurement outcome.
+    The outcomes of the dual-rail measurements are collected in the order the
+    measurements are executed, two modes per measured bosonic qubit. This function
+    checks the outcomes of the measurement with index `measurement_index` to determine
+    the qubit measurement outcome. When `negate` is set, the returned condition is met
+    exactly when the qubit outcome differs from `measurement_value`.
     """
 
     def condition(outcomes):
-        two_mode_outcomes = [(outcomes[qubit_index * 2], outcomes[qubit_index * 2 + 1])]
+        two_mode_outcomes = [
+            (outcomes[measurement_index * 2], outcomes[measurement_index * 2 + 1])
+        ]
         qubit_outcome = get_bosonic_qubit_samples(two_mode_outcomes)[0][0]
-        return qubit_outcome == measurement_value
+        return (qubit_outcome == measurement_value) != negate
 
     return condition
 
 
-def _map_qiskit_instr_to_pq(qiskit_instruction, modes, aux_modes):
+def _map_qiskit_instr_to_pq(
+    qiskit_instruction, modes, aux_modes, measurement_indices=None
+):
     instruction_name = qiskit_instruction.name
     instructions = []
     if instruction_name == "h":
@@ -315,15 +321,38 @@ def _map_qiskit_instr_to_pq(qiskit_instruction, modes, aux_modes):
         pq_instruction = pq.ParticleNumberMeasurement().on_modes(modes[0], modes[1])
         instructions.append(pq_instruction)
     elif instruction_name == "if_else":
-        true_branch_instructions = qiskit_instruction.operation.params[0]
-
         cond = qiskit_instruction.operation.condition
 
-        condition = _get_condition_function(cond[0]._index, cond[1])
-        for inner_instr_qiskit in true_branch_instructions:
-            instr_list = _map_qiskit_instr_to_pq(inner_instr_qiskit, modes, aux_modes)
-            for instr in instr_list:
-                instructions.append(instr.when(condition))
+        # NOTE: The measurement outcomes are collected in the order of the measurements,
+        # which might differ from the order of the classical bits.
+        if measurement_indices is not None:
+            if cond[0] not in measurement_indices:
+                raise ValueError(
+                    f"The classical bit {cond[0]} is used in a condition before any "
+                    "measurement result has been stored in it."
+                )
+            measurement_index = measurement_indices[cond[0]]
+        else:
+            measurement_index = cond[0]._index
+
+        # NOTE: `modes` contains the two modes of each qubit the 'if_else' instruction
+        # acts on; the blocks are defined on these qubits, in the same order.
+        for branch, negate in zip(qiskit_instruction.operation.params[:2], (False, True)):
+            if branch is None:
+                continue
+
+            condition = _get_condition_function(measurement_index, cond[1], negate)
+            for inner_instr_qiskit in branch:
+                if inner_instr_qiskit.name in ("cz", "cx", "measure", "if_else"):
+                    raise ValueError(
+                        f"Unsupported instruction '{inner_instr_qiskit.name}' inside a "
+                        "conditional block of the quantum circuit."
+                    )
+                inner_qubit = branch.find_bit(inner_instr_qiskit.qubits[0]).index
+                inner_modes = [modes[2 * inner_qubit], modes[2 * inner_qubit + 1]]
+                instr_list = _map_qiskit_instr_to_pq(inner_instr_qiskit, inner_modes, [])
+                for instr in instr_list:
+                    instructions.append(instr.when(condition))
     else:
         raise ValueError(
             f"Unsupported instruction '{instruction_name}' in the quantum circuit."
@@ -354,6 +383,8 @@ def _encode_dual_rail_from_qiskit(qc):
     instructions.extend(preparations)
 
     cz_idx = 0
+    num_measurements = 0
+    measurement_indices = {}
     for instr_qiskit in qc.data:
         qubit_indices = [qc.find_bit(q).index for q in instr_qiskit.qubits]
 
@@ -370,11 +401,18 @@ def _encode_dual_rail_from_qiskit(qc):
             aux_modes = [aux_modes_all[cz_idx * 2], aux_modes_all[cz_idx * 2 + 1]]
             cz_idx += 1
         else:
-            qubit = qubit_indices[0]
-            modes = [2 * qubit, 2 * qubit + 1]
+            modes = [
+                mode for qubit in qubit_indices for mode in (2 * qubit, 2 * qubit + 1)
+            ]
             aux_modes = []
-        mapped_instructions = _map_qiskit_instr_to_pq(instr_qiskit, modes, aux_modes)
+        mapped_instructions = _map_qiskit_instr_to_pq(
+            instr_qiskit, modes, aux_modes, measurement_indices
+        )
         instructions.extend(mapped_instructions)
+
+        if instr_qiskit.name == "measure":
+            measurement_indices[instr_qiskit.clbits[0]] = num_measurements
+            num_measurements += 1
 
     return instructions
 
